@@ -5,6 +5,7 @@ import (
 	"fmt"
 	"math/rand/v2"
 	"sort"
+	"strings"
 
 	ximage "golang.org/x/image/font/sfnt"
 
@@ -26,7 +27,8 @@ func init() {
 		Assumptions: []string{
 			"a Macintosh (1,0) subtable is queried by Unicode rune through Mac OS Roman (the library's convention for formats 4 and 6, also x/image's for format 0); Mac subtables are generated with codes 0..255 only",
 			"maps whose format 4 encoding cannot be shown to fit into 65535 bytes (cmapref's plain encoder as upper bound) only have to be 'panic or faithful'",
-			"explicit glyph 0 entries mean 'unmapped' and occur only in the spec-side strata",
+			"explicit glyph 0 entries in a source map mean 'unmapped' (the property says 'glyph 0 for every unmapped' code, and glyph 0 is the missing glyph); a quarter of the fmt4 / fmt12 / install maps carry such entries next to mapped runs, behind entries for glyph 0xFFFF and at the ends of the code range: the emitted subtable must still give every code its glyph and 0 (not 0x10000) to the others",
+			"a cmap.Table key with a language on a non-Macintosh platform, or a Macintosh key whose language differs from the language field of its subtable, cannot survive: the format keeps the language inside the subtable and requires 0 outside the Macintosh platform (cmap.Decode applies this). Stratum table-odd-languages records what becomes of such a key and judges only panics and the other keys of the table",
 			"cmapref is written from the OpenType cmap chapter; where it, the generator's intent and x/image agree against the library the library is taken to be wrong",
 		},
 	}, runC09)
@@ -204,6 +206,109 @@ func c09format4(r *rand.Rand, limit int) (cmap.Format4, map[string]bool) {
 	return g.m, g.cls
 }
 
+// c09zeros4 adds explicit glyph-0 entries ("unmapped", see Assumptions) at
+// unmapped codes of a format 4 source map: next to mapped runs, behind a code
+// that maps to glyph 0xFFFF, at the ends of the code range and at random codes.
+// The meaning of the map is unchanged; the encoder must not let such entries
+// disturb their neighbours.
+func c09zeros4(r *rand.Rand, m cmap.Format4, cls map[string]bool) {
+	keys := make([]int, 0, len(m))
+	for c := range m {
+		keys = append(keys, int(c))
+	}
+	sort.Ints(keys)
+	put := func(c int, class string) {
+		if c < 0 || c > 0xFFFF {
+			return
+		}
+		if _, ok := m[uint16(c)]; ok {
+			return
+		}
+		m[uint16(c)] = 0
+		cls["gen:explicit-zero"] = true
+		if class != "" {
+			cls[class] = true
+		}
+	}
+	mode := r.IntN(4)
+	for _, c := range keys {
+		if m[uint16(c)] == 0xFFFF && r.IntN(4) != 0 {
+			put(c+1, "gen:explicit-zero-behind-glyph-ffff")
+		}
+		switch {
+		case mode == 0 && r.IntN(3) == 0:
+			put(c+1, "")
+		case mode == 1 && r.IntN(3) == 0:
+			put(c-1, "")
+		case mode == 2 && r.IntN(6) == 0:
+			put(c+1, "")
+			put(c+2, "")
+			put(c-1, "")
+		}
+	}
+	for i := r.IntN(8); i > 0; i-- {
+		put(r.IntN(0x10000), "")
+	}
+	if r.IntN(3) == 0 {
+		put(0, "gen:explicit-zero-at-code-0")
+	}
+	if r.IntN(3) == 0 {
+		put(0xFFFF, "gen:explicit-zero-at-code-ffff")
+	}
+	if len(keys) == 0 || r.IntN(8) == 0 { // a map that consists of explicit zeros only / isolated zeros
+		put(0x41+r.IntN(0x1000), "")
+	}
+}
+
+// c09zeros12 is c09zeros4 for format 12 source maps.
+func c09zeros12(r *rand.Rand, m cmap.Format12, cls map[string]bool) {
+	keys := make([]uint32, 0, len(m))
+	for c := range m {
+		keys = append(keys, c)
+	}
+	sort.Slice(keys, func(i, j int) bool { return keys[i] < keys[j] })
+	put := func(c uint32, class string) {
+		if c > 0x10FFFF {
+			return
+		}
+		if _, ok := m[c]; ok {
+			return
+		}
+		m[c] = 0
+		cls["gen:explicit-zero"] = true
+		if class != "" {
+			cls[class] = true
+		}
+	}
+	mode := r.IntN(4)
+	for _, c := range keys {
+		if m[c] == 0xFFFF && r.IntN(4) != 0 {
+			put(c+1, "gen:explicit-zero-behind-glyph-ffff")
+		}
+		switch {
+		case mode == 0 && r.IntN(3) == 0:
+			put(c+1, "")
+		case mode == 1 && r.IntN(3) == 0 && c > 0:
+			put(c-1, "")
+		case mode == 2 && r.IntN(6) == 0:
+			put(c+1, "")
+			put(c+2, "")
+		}
+	}
+	for i := r.IntN(8); i > 0; i-- {
+		put(uint32(r.IntN(0x110000)), "")
+	}
+	if r.IntN(4) == 0 {
+		put(0, "gen:explicit-zero-at-code-0")
+	}
+	if r.IntN(4) == 0 {
+		put(0x10FFFF, "gen:explicit-zero-at-code-10ffff")
+	}
+	if len(keys) == 0 || r.IntN(8) == 0 {
+		put(uint32(0x41+r.IntN(0x1000)), "")
+	}
+}
+
 func c09format12(r *rand.Rand) cmap.Format12 {
 	m := cmap.Format12{}
 	var budget int
@@ -346,7 +451,8 @@ func runC09(c *mon.Ctx) {
 	c.Stratum("fmt4-limit", c.N(32, 640), func(k *mon.Case) { c09fmt4(k, 2+k.Index%2) })
 	c.Stratum("fmt4-dense", c.N(2, 48), func(k *mon.Case) { c09fmt4(k, 1) })
 	c.Require("seg:delta", "seg:array", "seg:mixed", "gen:delta-wraps", "gen:empty", "gen:single",
-		"gen:limit-dense", "gen:limit-sparse", "gen:limit-blocks", "fmt4:code-ffff-mapped", "fmt4:above-60000-bytes", "ximage:agrees")
+		"gen:limit-dense", "gen:limit-sparse", "gen:limit-blocks", "fmt4:code-ffff-mapped", "fmt4:above-60000-bytes", "ximage:agrees",
+		"gen:explicit-zero", "gen:explicit-zero-behind-glyph-ffff", "gen:explicit-zero-at-code-0", "gen:explicit-zero-at-code-ffff")
 
 	// ------------------------------------------------------------------
 	// format 12: library encoder
@@ -356,6 +462,18 @@ func runC09(c *mon.Ctx) {
 		lang := uint16(0)
 		if r.IntN(3) == 0 {
 			lang = uint16(r.Uint32())
+		}
+		zcls := map[string]bool{}
+		if len(m) < 60000 && r.IntN(4) == 0 {
+			c09zeros12(r, m, zcls)
+		}
+		nMapped := 0
+		for c, g := range m {
+			if g != 0 {
+				nMapped++
+			} else if c > 0 && m[c-1] == 0xFFFF {
+				zcls["gen:explicit-zero-behind-glyph-ffff"] = true
+			}
 		}
 		var data []byte
 		if k.Guard("Format12.Encode", func() { data = m.Encode(lang) }) {
@@ -368,8 +486,18 @@ func runC09(c *mon.Ctx) {
 			k.Fail("mismatch", "fmt12:ref-cannot-decode", "cmapref cannot decode the emitted subtable: %v", err)
 			return
 		}
-		if len(ref.Problems) > 0 {
-			k.Fail("mismatch", "fmt12:header", "emitted subtable violates the specification: %v", ref.Problems)
+		problems := ref.Problems
+		if zcls["gen:explicit-zero-behind-glyph-ffff"] {
+			// groups running past glyph 0xFFFF get the more specific witness below
+			problems = nil
+			for _, p := range ref.Problems {
+				if !strings.Contains(p, "glyph ids exceed 0xFFFF") {
+					problems = append(problems, p)
+				}
+			}
+		}
+		if len(problems) > 0 {
+			k.Fail("mismatch", "fmt12:header", "emitted subtable violates the specification: %v", problems)
 		}
 		if ref.Language != uint32(lang) {
 			k.Fail("mismatch", "fmt12:language", "language field %d, want %d", ref.Language, lang)
@@ -411,7 +539,12 @@ func runC09(c *mon.Ctx) {
 			}
 			if g := ref.Lookup(c); g != want && bad < 3 {
 				bad++
-				k.Fail("mismatch", "fmt12:encode-wrong", "code %#x: the emitted subtable maps to glyph %d (independent decoder), the map says %d", c, g, want)
+				if _, explicit := m[c]; explicit && want == 0 && g == 0x10000 && c > 0 && m[c-1] == 0xFFFF {
+					// an explicit glyph-0 entry behind an entry for glyph 0xFFFF is merged into that entry's group
+					k.Fail("mismatch", "fmt12:explicit-zero-behind-glyph-ffff-joins-the-group", "code %#x: explicit glyph 0 in the source map, code %#x maps to glyph 0xFFFF; the emitted subtable has one group for both, which assigns glyph id %d (0x10000, not a glyph id) to code %#x", c, c-1, g, c)
+				} else {
+					k.Fail("mismatch", "fmt12:encode-wrong", "code %#x: the emitted subtable maps to glyph %d (independent decoder), the map says %d", c, g, want)
+				}
 			}
 			if g := uint32(sub.Lookup(rune(c))); g != want && bad < 3 {
 				bad++
@@ -420,9 +553,13 @@ func runC09(c *mon.Ctx) {
 		}
 		k.Evals(2)
 		total := 0
-		ref.Each(func(_, _ uint32) { total++ })
-		if total != len(m) {
-			k.Fail("mismatch", "fmt12:count", "emitted subtable maps %d codes, the map has %d", total, len(m))
+		ref.Each(func(_, g uint32) {
+			if g <= 0xFFFF { // a glyph id of 0x10000 is reported by the comparison above
+				total++
+			}
+		})
+		if total != nMapped {
+			k.Fail("mismatch", "fmt12:count", "emitted subtable maps %d codes, the map has %d", total, nMapped)
 		}
 		if f12, ok := sub.(cmap.Format12); ok {
 			n := 0
@@ -431,21 +568,28 @@ func runC09(c *mon.Ctx) {
 					n++
 				}
 			}
-			if n != len(m) {
-				k.Fail("mismatch", "fmt12:count-decoded", "library decodes %d mapped codes, the map has %d", n, len(m))
+			if n != nMapped {
+				k.Fail("mismatch", "fmt12:count-decoded", "library decodes %d mapped codes, the map has %d", n, nMapped)
 			}
 		}
 		k.Eval()
+		if !k.Failed() {
+			for _, name := range []string{"gen:explicit-zero", "gen:explicit-zero-behind-glyph-ffff", "gen:explicit-zero-at-code-0", "gen:explicit-zero-at-code-10ffff"} {
+				if zcls[name] {
+					k.Class("fmt12:" + name)
+				}
+			}
+		}
 		if len(planes) > 1 {
 			k.Class("fmt12:several-planes")
 		}
 		if planes[16] {
 			k.Class("fmt12:plane-16")
 		}
-		if len(m) == 65536 {
+		if nMapped == 65536 {
 			k.Class("fmt12:65536-entries")
 		}
-		if len(m) == 0 {
+		if nMapped == 0 {
 			k.Class("fmt12:empty")
 		}
 		k.Max("fmt12:groups", float64(len(ref.Groups)))
@@ -462,7 +606,7 @@ func runC09(c *mon.Ctx) {
 			k.Sample(map[string]any{"entries": len(m), "groups": len(ref.Groups)})
 		}
 	})
-	c.Require("fmt12:several-planes", "fmt12:plane-16", "fmt12:65536-entries", "fmt12:empty")
+	c.Require("fmt12:several-planes", "fmt12:plane-16", "fmt12:65536-entries", "fmt12:empty", "fmt12:gen:explicit-zero", "fmt12:gen:explicit-zero-at-code-0", "fmt12:gen:explicit-zero-at-code-10ffff")
 
 	// ------------------------------------------------------------------
 	// spec-side format 4
@@ -483,9 +627,14 @@ func runC09(c *mon.Ctx) {
 	c.Stratum("table", c.N(1500, 60000), func(k *mon.Case) { c09table(k) })
 	c.Require("table:shared", "table:mac-languages", "table:spec-side", "table:platform-4", "table:single", "table:empty")
 
+	// keys whose language the binary format cannot carry (borderline, see Assumptions):
+	// what happens is recorded; only panics and damage to the other keys are judged
+	c.Stratum("table-odd-languages", c.N(400, 20000), func(k *mon.Case) { c09oddLanguages(k) })
+	c.Require("table-odd:non-mac-language", "table-odd:mac-language-differs-from-subtable", "table-odd:regular-keys-intact")
+
 	// InstallCMap: encoding ids follow the code range, both keys share the subtable
 	c.Stratum("install", c.N(300, 20000), func(k *mon.Case) { c09install(k) })
-	c.Require("install:full-unicode", "install:bmp", "install:format12-bmp-only")
+	c.Require("install:full-unicode", "install:bmp", "install:format12-bmp-only", "install:explicit-zero-entries")
 
 	// GetBest
 	c.Stratum("getbest", c.N(32*12, 32*600), func(k *mon.Case) { c09getbest(k) })
@@ -503,9 +652,14 @@ func c09fmt4(k *mon.Case, limit int) {
 	if r.IntN(3) == 0 {
 		lang = uint16(r.Uint32())
 	}
+	if limit == 0 && r.IntN(4) == 0 {
+		c09zeros4(r, m, cls)
+	}
 	src16 := make(map[uint16]uint16, len(m))
 	for c, g := range m {
-		src16[c] = uint16(g)
+		if g != 0 { // explicit zeros mean "unmapped"
+			src16[c] = uint16(g)
+		}
 	}
 	_, fits := cmapref.SimpleFormat4(lang, src16)
 
@@ -528,7 +682,12 @@ func c09fmt4(k *mon.Case, limit int) {
 		return
 	}
 	k.Input(data)
+	var clsNames []string
 	for name := range cls {
+		clsNames = append(clsNames, name)
+	}
+	sort.Strings(clsNames)
+	for _, name := range clsNames {
 		k.Class(name)
 	}
 	if !fits {
@@ -1360,6 +1519,132 @@ func c09table(k *mon.Case) {
 	k.Class("table:spec-side")
 }
 
+// c09oddLanguages: a regular table plus one key whose Language cannot survive:
+// a language on a non-Macintosh platform (the format stores the language in
+// the subtable, and it must be 0 there for every platform but Macintosh), or a
+// Macintosh key whose Language differs from the language field of its subtable.
+func c09oddLanguages(k *mon.Case) {
+	r := k.Rng
+	t := cmap.Table{}
+	used := map[[2]uint16]bool{} // (platform, encoding) pairs taken
+	nreg := r.IntN(5)
+	var regular []cmap.Key
+	for len(regular) < nreg {
+		key := cmap.Key{PlatformID: uint16(r.IntN(5)), EncodingID: []uint16{0, 1, 3, 4, 10}[r.IntN(5)]}
+		if used[[2]uint16{key.PlatformID, key.EncodingID}] {
+			continue
+		}
+		used[[2]uint16{key.PlatformID, key.EncodingID}] = true
+		if key.PlatformID == 1 && r.IntN(2) == 0 {
+			key.Language = uint16(1 + r.IntN(150))
+		}
+		d := c09subtable(r, key.Language)
+		for key.Language != 0 && d[1] == 14 {
+			d = c09subtable(r, key.Language)
+		}
+		t[key] = d
+		regular = append(regular, key)
+	}
+	var odd cmap.Key
+	var kind string
+	collides := false
+	lang := uint16(1 + r.IntN(150))
+	if r.IntN(8) == 0 {
+		lang = uint16(1 + r.IntN(0xFFFF))
+	}
+	if r.IntN(3) != 0 {
+		kind = "non-mac-language"
+		odd = cmap.Key{PlatformID: []uint16{3, 0, 3, 2, 4}[r.IntN(5)], EncodingID: []uint16{1, 3, 10, 0, 4}[r.IntN(5)], Language: lang}
+		field := lang // the subtable's own language field: the key's language, or the 0 the specification asks for
+		if r.IntN(2) == 0 {
+			field = 0
+			kind += ",field=0"
+		} else {
+			kind += ",field=language"
+		}
+		d := c09subtable(r, field)
+		for d[1] == 14 {
+			d = c09subtable(r, field)
+		}
+		t[odd] = d
+	} else {
+		kind = "mac-language-differs-from-subtable"
+		odd = cmap.Key{PlatformID: 1, EncodingID: 0, Language: lang}
+		field := uint16(0)
+		if r.IntN(2) == 0 {
+			field = lang + 1
+		}
+		d := c09subtable(r, field)
+		for d[1] == 14 {
+			d = c09subtable(r, field)
+		}
+		t[odd] = d
+	}
+	collides = used[[2]uint16{odd.PlatformID, odd.EncodingID}]
+	desc := fmt.Sprintf("odd key %v (%s), %d regular keys, (platform, encoding) shared with a regular key: %v", odd, kind, nreg, collides)
+	k.Step(desc)
+	var enc []byte
+	if k.Guard("cmap.Table.Encode", func() { enc = t.Encode() }) {
+		return
+	}
+	k.Input(enc)
+	k.DistinctBytes(enc)
+	hdr := cmapref.DecodeTable(enc)
+	if len(hdr.Records) != len(t) {
+		k.Class("table-odd:record-count-differs")
+	}
+	var dec cmap.Table
+	var err error
+	if k.Guard("cmap.Decode", func() { dec, err = cmap.Decode(enc) }) {
+		return
+	}
+	k.Eval()
+	base := "table-odd:" + strings.SplitN(kind, ",", 2)[0]
+	k.Class(base)
+	if err != nil {
+		k.Class(base + ":decode-refuses")
+		return
+	}
+	// what became of the odd key
+	if got, ok := dec[odd]; ok && bytes.Equal(got, t[odd]) {
+		k.Class(base + ":key-preserved")
+	} else if got, ok := dec[cmap.Key{PlatformID: odd.PlatformID, EncodingID: odd.EncodingID}]; ok && bytes.Equal(got, t[odd]) {
+		k.Class(base + ":comes-back-with-language-0")
+	} else {
+		found := false
+		for key, got := range dec {
+			if key.PlatformID == odd.PlatformID && key.EncodingID == odd.EncodingID && bytes.Equal(got, t[odd]) {
+				found = true
+			}
+		}
+		if found {
+			k.Class(base + ":comes-back-with-the-subtable's-language")
+		} else {
+			k.Class(base + ":lost")
+		}
+	}
+	// the regular keys must be unharmed unless the odd key shares their (platform, encoding) pair
+	if collides {
+		k.Class("table-odd:collision-not-judged")
+		return
+	}
+	for _, key := range regular {
+		got, ok := dec[key]
+		if !ok {
+			k.Fail("mismatch", "table-odd:regular-key-lost", "key %v lost from a table that also holds the %s", key, desc)
+			return
+		}
+		if !bytes.Equal(got, t[key]) {
+			k.Fail("mismatch", "table-odd:regular-subtable-changed", "subtable of key %v changed in a table that also holds the %s", key, desc)
+			return
+		}
+	}
+	k.Class("table-odd:regular-keys-intact")
+	if k.Index < 2 {
+		k.Sample(desc)
+	}
+}
+
 // ---- InstallCMap ----
 
 func c09install(k *mon.Case) {
@@ -1371,6 +1656,13 @@ func c09install(k *mon.Case) {
 		m, _ := c09format4(r, 0)
 		if len(m) > 3000 {
 			m = cmap.Format4{0x41: 1, 0x42: 2, 0xFFFF: 9}
+		}
+		if r.IntN(4) == 0 {
+			zc := map[string]bool{}
+			c09zeros4(r, m, zc)
+			if zc["gen:explicit-zero"] {
+				k.Class("install:explicit-zero-entries")
+			}
 		}
 		for c, g := range m {
 			want[uint32(c)] = uint32(g)
@@ -1390,9 +1682,16 @@ func c09install(k *mon.Case) {
 				m[0xFFFF] = 78
 			}
 		}
+		if r.IntN(4) == 0 {
+			zc := map[string]bool{}
+			c09zeros12(r, m, zc)
+			if zc["gen:explicit-zero"] {
+				k.Class("install:explicit-zero-entries")
+			}
+		}
 		for c, g := range m {
 			want[c] = uint32(g)
-			astral = astral || c > 0xFFFF
+			astral = astral || (c > 0xFFFF && g != 0) // explicit zeros mean "unmapped"
 		}
 		sub = m
 		if !astral {
